@@ -61,7 +61,29 @@ def r7(ctx, cfg):
         return acc
     q.who_may_call(ctx, R, F, B + "mint", {B + "send", SUDO}, "coins are created only by a transfer's credit side or BankSudo::Mint", accept=module_arm("mint"))
     q.who_may_call(ctx, R, F, B + "burn", {B + "send", EXEC}, "coins are destroyed only by a transfer's debit side or BankMsg::Burn", accept=module_arm("burn"))
-    q.who_may_call(ctx, R, F, B + "send", {EXEC}, "transfers are performed by BankMsg::Send only")
+    def keeper_entry(caller):
+        # a further public way to transfer is fine when it hands its own arguments to `send` as they are, on the bank's view
+        # of the store it was given (or of a cache of it), and answers with send's verdict
+        P0 = cfg.prov
+        g0 = F.fn(caller)
+        if g0 is None or not caller.startswith(B):
+            return False
+        ok0 = False
+        for h, b, t in q.lexical_calls(F, caller, B + "send"):
+            a = P0.call_args(h, t, b)
+            st = peel(a[1])
+            if not (st[0] == "call" and st[1] == "prefixed_storage::prefixed" and peel(st[2][1]) == ("item", "bank::NAMESPACE_BANK")):
+                return False
+            base = peel(st[2][0])
+            if not (base[0] == "param" or (base[0] == "bound" and base[1] == "cache_of" and peel(base[2])[0] == "param")):
+                return False
+            if not all(just(x, lambda y: y[0] == "param" and y[2] != "self") for x in a[2:5]):
+                return False
+            if not (q.error_propagates(P0, h, b) or h.key != caller):
+                return False
+            ok0 = True
+        return ok0
+    q.who_may_call(ctx, R, F, B + "send", {EXEC}, "transfers are performed by BankMsg::Send only", accept=keeper_entry)
 
 
 def _ok_of_call(o, key):
